@@ -35,7 +35,20 @@ def config(tier):
 
 
 @st.composite
+def _long_desc(draw):
+    # inputs longer than 2^16 / 2^17 elements (where a blocked or chunked variant of the scan would switch over): values are
+    # multiples of 2^-10 drawn from a seeded generator, so every partial sum is exact in float64 and in int64
+    n = draw(st.sampled_from([65536, 65537, 65538, 70000, 100003, 131073, 200001]))
+    kindnum = draw(st.sampled_from(['float', 'float', 'int']))
+    ind, outd = ('float64', 'float64') if kindnum == 'float' else (draw(st.sampled_from(['int32', 'int64', 'uint32'])), draw(st.sampled_from(['int64', 'uint64', 'float64'])))
+    return dict(n=n, initial=draw(st.booleans()), final=draw(st.booleans()), kind='array', ind=ind, outd=outd, frac=(kindnum == 'float'), vals=None, longseed=draw(st.integers(0, 2**31 - 1)),
+                offset=draw(st.sampled_from([0, 0, 3])) if kindnum == 'int' else draw(st.sampled_from([0.0, 1.5])), delta=0, outlayout='contig', inlayout='contig')
+
+
+@st.composite
 def _desc(draw):
+    if draw(st.integers(0, 59)) == 0:
+        return draw(_long_desc())
     n = draw(st.one_of(st.sampled_from([0, 0, 0, 1, 1, 2, 3]), st.integers(0, 24), st.integers(0, 200)))
     initial = draw(st.booleans())
     final = draw(st.booleans())
@@ -113,6 +126,8 @@ def classes(d):
         c.append('in=strided')
     if d.get('alias'):
         c.append('in-place=' + d['alias'])
+    if d.get('longseed') is not None:
+        c.append('long-input(>2^16)')
     return c
 
 
@@ -121,6 +136,12 @@ def run_case(d):
 
     n, initial, final = d['n'], bool(d['initial']), bool(d['final'])
     vals = d['vals']
+    if d.get('longseed') is not None:
+        g = np.random.Generator(np.random.PCG64(int(d['longseed'])))
+        if d['frac']:
+            vals = g.integers(-1024, 1025, size=n) / 1024.0
+        else:
+            vals = g.integers(0, 1000, size=n)
     if len(vals) != n:
         raise Reject('len(vals)!=n')
     ind, outd = np.dtype(d['ind']), np.dtype(d['outd'])
